@@ -251,7 +251,11 @@ def awaits(table):
     import ast as _ast
     def hook(ex, e, st):
         txt = _ast.unparse(e.value)
-        h = table.get(txt) or table.get('*')
+        h = table.get(txt)
+        if h is None:
+            for k, v in table.items():          # 'prefix*' keys
+                if k.endswith('*') and len(k) > 1 and txt.startswith(k[:-1]): h = v; break
+        h = h or table.get('*')
         if h is None: raise Unsupported(f'await {txt}: no rely/guarantee contract given')
         return h(ex, e.value, st)
     return hook
